@@ -54,8 +54,7 @@ AllFields(doc, t, n) ==
   IF t.kind = "object" /\ t.base # "" /\ n > 0 THEN AllFields(doc, TypeByName(doc, t.base), n - 1) \o t.fields ELSE t.fields
 
 TypeFacts(doc, t) ==
-  {<<"T", t.name, IF t.kind = "object" THEN "object" ELSE "named">>}
-  \cup (IF t.kind = "object" THEN FieldFacts(t.name, AllFields(doc, t, 4)) ELSE {})
+  (IF t.kind = "object" THEN {<<"T", t.name, "object">>} \cup FieldFacts(t.name, AllFields(doc, t, 4)) ELSE {})
   \cup (IF t.kind = "enum" THEN {<<"V", t.name, v.name>> : v \in Range(t.vals)} ELSE {})
   \cup (IF t.kind \in {"array", "prim", "enum"} THEN {<<"A", t.name, t.base, B(t.kind = "array")>>} ELSE {})
 
@@ -90,10 +89,14 @@ SqlDoc(doc) ==
                     LAMBDA t : [t EXCEPT !.fields = MapSeq(SelectSeq(t.fields, LAMBDA f : SqlField(doc, f)),
                                                            LAMBDA f : [f EXCEPT !.arr = FALSE])]),
    eps |-> <<>>]
-\* the exportable subset: no inline objects (Sysl has no anonymous field types), scalar query and header parameters
+\* the exportable subset: no inline objects (Sysl has no anonymous field types), scalar query and header parameters,
+\* and at least one operation (an OpenAPI document must have a paths object)
+Ping == [method |-> "GET", path |-> "/ping", pparams |-> <<>>, params |-> <<>>, body |-> [base |-> "", arr |-> FALSE, req |-> FALSE],
+         resps |-> <<[code |-> "200", base |-> "string", arr |-> FALSE]>>]
 ExportDoc(doc) ==
   [types |-> MapSeq(doc.types, LAMBDA t : [t EXCEPT !.fields = SelectSeq(t.fields, LAMBDA f : f.base # "inline")]),
-   eps |-> MapSeq(doc.eps, LAMBDA e : [e EXCEPT !.params = MapSeq(e.params, LAMBDA q : [q EXCEPT !.arr = FALSE])])]
+   eps |-> IF doc.eps = <<>> THEN <<Ping>>
+           ELSE MapSeq(doc.eps, LAMBDA e : [e EXCEPT !.params = MapSeq(e.params, LAMBDA q : [q EXCEPT !.arr = FALSE])])]
 
 \* a document is well formed when names are unique and references resolve
 WellFormed(doc) ==
